@@ -25,8 +25,15 @@ import vlib
 
 LEVEL = "proof"
 MODULE = "Sqfs.Props.C09"
-REQUIRED = ["Sqfs.C09.inv_init", "Sqfs.C09.inv_step", "Sqfs.C09.inv_reachable", "Sqfs.C09.run_reachable",
-            "Sqfs.C09.fifo", "Sqfs.C09.at_most_once", "Sqfs.C09.exactly_once"]
+REQUIRED = ["Sqfs.C09." + t for t in (
+    "inv_init", "inv_step", "inv_reachable", "run_reachable", "strict_reachable", "fifo", "fifo_run", "at_most_once",
+    "returned_at_most_once", "no_item_lost", "exactly_once", "ctx_exclusive", "ctx_owner", "no_lost_wakeup", "no_deadlock",
+    "no_deadlock_flag", "failure_recorded", "failure_sticky", "failure_reported_submit", "failure_reported_get_status",
+    "failure_reported_dequeue")]
+WITNESS_MODULE = "Sqfs.Witness.C09"
+WITNESS_REQUIRED = ["Sqfs.Witness.C09." + t for t in (
+    "schedule_is_strict_execution", "deadlock_after_failure", "hang_forever", "no_deadlock_fails_for_pinned_code",
+    "repaired_reports_failure")]
 D1_KEY = "D1:dequeue-waits-forever-after-worker-failure"
 WITNESS_CHOICES = "s0 m s1 m w0 w0 w0 q m q m"
 WITNESS_RC = "0:-5"
@@ -221,8 +228,10 @@ def compare(ctx, harness, rep, scripts, stats, label):
         if inf["err"]:
             spec_bad.append("harness-assertion:" + inf["err"])
         if inf["deadlock"]:
-            _, snap = inf["deadlock"]
-            if rep == 0 and d1_shaped(snap):
+            k, snap = inf["deadlock"]
+            msn = b.split(" || ")[0].split(" | ")
+            if rep == 0 and d1_shaped(snap) and k < len(msn) and msn[k] == snap:
+                # the pinned model predicts exactly this dead-lock: an instance of the known finding D1
                 stats["d1_deadlocks"] += 1          # the finding itself is reported once, by the witness probe
             else:
                 spec_bad.append("deadlock")
@@ -300,6 +309,14 @@ def run(ctx):
                       {"broken": problems, "theorems_file": "lean/Sqfs/Props/C09.lean"}, found_input=False)
         if not ctx.driver_path().exists():
             return ctx.finish(LEVEL)
+    # the witness of D1 (negation of no_deadlock on the model of the pinned code) is audited as well, but is not
+    # counted among the obligations of the property
+    nprop = len(ctx.theorems)
+    wok, wproblems = ctx.audit(WITNESS_MODULE, WITNESS_REQUIRED)
+    witness_theorems, ctx.theorems = ctx.theorems[nprop:], ctx.theorems[:nprop]
+    if not wok:
+        ctx.violation("proof:C09-witness", "the D1 witness no longer checks: " + " | ".join(wproblems)[:1000],
+                      {"broken": wproblems, "theorems_file": "lean/Sqfs/Witness/C09.lean"}, found_input=False)
     harness = harness_build(ctx)
     stats = {"scripts": 0, "steps": 0, "harness_s": 0.0, "model_s": 0.0, "by_label": {}, "hist": {}, "nontrivial": set(),
              "disagreements": 0, "reported": 0, "d1_deadlocks": 0}
@@ -355,6 +372,7 @@ def run(ctx):
                 "state compared after every step, then the specification monitors on the implementation's own history; non-trivial = distinct "
                 "schedule in which at least one worker ran and some thread blocked on a condition variable",
         "reference_model": "repaired=%d" % rep,
+        "witness_theorems": witness_theorems,
         "by_kind": stats["by_label"],
         "enumerations": enum_cfgs,
         "histogram_scripts_reaching": stats["hist"],
